@@ -462,10 +462,12 @@ namespace Pistache::Http
                     if (!cursor.advance(1))
                         return Incomplete;
 
+                // convert from a bounded, terminated copy: the buffer is not
+                // NUL-terminated and strtol would skip the CRLF as white space
+                const std::string sizeText = chunkSize.text();
                 char* end;
-                const char* raw = chunkSize.rawText();
-                auto sz         = std::strtol(raw, &end, 16);
-                if (*end != '\r')
+                auto sz = std::strtol(sizeText.c_str(), &end, 16);
+                if (end != sizeText.c_str() + sizeText.size() || sz < 0)
                     throw std::runtime_error("Invalid chunk size");
 
                 // CRLF
